@@ -78,6 +78,21 @@ Overlay(dc, x) ==
                 IF g \in DOMAIN dc.st.groups THEN [x.groups[g] EXCEPT !.count = dc.st.groups[g].count]
                 ELSE x.groups[g]]]
 
+(* L2 traces: the harness restates, for every Cycle line, what the manifests    *)
+(* declare (decl_apps) and the partition / priority in force (declared, oprio)  *)
+OverlayL2(line, x) ==
+  IF "decl_apps" \notin DOMAIN line THEN x
+  ELSE [x EXCEPT !.apps = [a \in DOMAIN x.apps |->
+          IF a \notin DOMAIN line.decl_apps THEN x.apps[a]
+          ELSE LET d == line.decl_apps[a] IN
+               [x.apps[a] EXCEPT !.retention = d.retention, !.lease = d.lease, !.once = d.once,
+                                 !.group = d.group, !.aff = d.aff, !.limits = d.limits,
+                                 !.blacklisted = d.blacklisted,
+                                 !.prio = IF "oprio" \in DOMAIN line /\ a \in DOMAIN line.oprio
+                                          THEN line.oprio[a] ELSE @,
+                                 !.label = IF "declared" \in DOMAIN line /\ a \in DOMAIN line.declared
+                                           THEN line.declared[a] ELSE @]]]
+
 DeclNext(dc, pre, line, scn) ==
   IF ~dc.on \/ "exc" \in DOMAIN line \/ line.ev \in {"Cycle", "ProbeCycle", "L2", "Init"} THEN dc
   ELSE [dc EXCEPT !.st = EnvDo(Overlay(dc, pre), line.ev, line.args, CanonScn(scn))]
@@ -185,8 +200,8 @@ ObsMarks(pre, mk, kind) ==
 CycleFail(rawpre, line, rawpost) ==
   LET q == Flatten(line.queues)
       pl == line.placement
-      pre == Overlay(aux.decl, rawpre)
-      post == Overlay(aux.decl, rawpost) IN
+      pre == IF aux.decl.on THEN Overlay(aux.decl, rawpre) ELSE OverlayL2(line, rawpre)
+      post == IF aux.decl.on THEN Overlay(aux.decl, rawpost) ELSE OverlayL2(line, rawpost) IN
   F("C01.cap", C01cap(post)) \cup F("C01.free", C01free(post))
   \cup F("C01.single", C01single(post)) \cup F("C01.views", C01views(post))
   \cup F("C03.post", C03post(post)) \cup F("C03.assign", C03assign(ObsLease(post, aux.lease), pl))
